@@ -310,7 +310,7 @@ impl Counters {
 /// A collection of tables and indexes over them.
 ///
 /// A database also owns the memory pools used by its tables.
-#[derive(Clone, Default)]
+#[derive(Default)]
 pub struct Database {
     // NB: some fields are pub(crate) to allow some internal modules to avoid
     // borrowing the whole table.
@@ -333,6 +333,23 @@ pub struct Database {
     /// This is primarily used to determine whether or not to attempt to do some operations in
     /// parallel.
     total_size_estimate: usize,
+}
+
+impl Clone for Database {
+    fn clone(&self) -> Database {
+        Database {
+            tables: self.tables.clone(),
+            counters: self.counters.clone(),
+            external_functions: self.external_functions.clone(),
+            container_values: self.container_values.clone(),
+            // A clone must not consume, or lose, the notifications of the database it was
+            // cloned from: give it its own list, seeded with the pending notifications.
+            notification_list: self.notification_list.deep_copy(),
+            deps: self.deps.clone(),
+            base_values: self.base_values.clone(),
+            total_size_estimate: self.total_size_estimate,
+        }
+    }
 }
 
 impl Database {
